@@ -3,6 +3,8 @@
   `vmp_exact_aux`, stated before the inverse DFT), `vec_znx_idft`, the small product.
 -/
 import SpqProofs.Lemmas.ClosedSound
+import SpqProofs.Lemmas.ModuleVmpCongr
+import SpqProofs.Lemmas.ProgRaw
 set_option linter.unusedSectionVars false
 namespace Spq.Closed
 open Finset Spq Spq.Module Spq.Prog Reim4
@@ -115,6 +117,47 @@ theorem vmp_sound (x : Array Int) (asz asl rsz : ℕ) (f : ℕ → ℕ → ℤ) 
     unfold Prog.vmpVal
     rw [if_neg (by omega)]
 
+/-- `vmp_apply_dft_to_dft` of ANY represented vector (raw transform or product: exact arithmetic has no rounding to
+    propagate): the object equals `vmp_apply_dft` of the canonical integer vector -/
+theorem vmp_dd_sound (P : Val) (asz rsz : ℕ) (d : Array R) (M : Val) (pm : Array R) (nrows ncols : ℕ)
+    (hP : RepVx c P asz d) (hM : RepMx c M nrows ncols pm) :
+    RepVx c (Val.mk c.nn rsz (Prog.vmpVal c.nn asz (zext asz fun i t => P.coef i t) M nrows ncols)) rsz
+      (vmpApplyDftToDft c rsz d asz pm nrows ncols) := by
+  have hag : Agree c.nn (flatOf c.nn asz fun i t => P.coef i t) asz c.nn (fun i t => P.coef i t) :=
+    agree_flatOf c.nn asz _
+  have hV := dft_sound c z ha hd hl _ asz c.nn asz _ hag
+  have hsz : ∀ i, i < asz →
+      (c.fft (c.fromZnx (limbOf (flatOf c.nn asz fun i t => P.coef i t) i c.nn c.nn))).size = c.nn :=
+    fun i hi => hd.fft_size _ (hd.fromZnx_size _ (size_limbOf _ _ _ _ (hag.1 i hi)))
+  have e1 := vmpApplyDft_eq c ha.hnn ha.hblk rsz (flatOf c.nn asz fun i t => P.coef i t) asz c.nn pm nrows ncols hsz
+  have e2 : vmpApplyDftToDft c rsz d asz pm nrows ncols =
+      vmpApplyDftToDft c rsz (vecDft c asz (flatOf c.nn asz fun i t => P.coef i t) asz c.nn) asz pm nrows ncols := by
+    have hra : min nrows asz ≤ asz := Nat.min_le_right _ _
+    apply vmpApply_congr c ha.hnn ha.hblk
+    · intro x hx
+      have hn : 0 < c.nn := by
+        rcases Nat.eq_zero_or_pos c.nn with q | q
+        · rw [q] at hx; omega
+        · exact q
+      have hi : x / c.nn < min nrows asz := (Nat.div_lt_iff_lt_mul hn).2 hx
+      have hia : x / c.nn < asz := by omega
+      have e : x = x / c.nn * c.nn + x % c.nn := by rw [Nat.mul_comm]; exact (Nat.div_add_mod x c.nn).symm
+      have hk : x % c.nn < c.nn := Nat.mod_lt _ hn
+      have hl1 : dlimb d (x / c.nn) c.nn =
+          dlimb (vecDft c asz (flatOf c.nn asz fun i t => P.coef i t) asz c.nn) (x / c.nn) c.nn := by
+        rw [hP.2 _ hia, hV.2 _ hia]
+        apply fft_congr c hl
+        intro t ht
+        rw [getD_polyArr _ _ _ ht, getD_polyArr _ _ _ ht, coef_mk _ _ _ _ _ hia ht, zext, if_pos hia]
+      have g := congrArg (fun v => v.getD (x % c.nn) c.ar.zero) hl1
+      simp only [dlimb, getD_extract] at g
+      rw [if_pos (by omega), if_pos (by omega), ← e] at g
+      exact g
+    · rw [hP.1]; exact Nat.mul_le_mul_right _ hra
+    · rw [hV.1]; exact Nat.mul_le_mul_right _ hra
+  rw [e2, ← e1]
+  exact vmp_sound c z ha hd hl _ asz c.nn rsz _ M pm nrows ncols hag hM
+
 omit ha hl in
 /-- `vec_znx_idft` of a represented vector returns the integers -/
 theorem idft_sound (P : Val) (sz rsz : ℕ) (d : Array R) (h : RepVx c P sz d) (i t : ℕ) (hi : i < rsz) (ht : t < c.nn) :
@@ -148,14 +191,16 @@ theorem small_product_sound (a b : Array Int) (fa fb : ℕ → ℤ) (h1 : ∀ t,
 
 /-- **`DftOpsSound` from H1–H4** (all budgets `True`) -/
 def dftOpsSound_of_exact : DftOpsSound c c.nn where
+  nn_eq := rfl
   RepV := RepVx c
   RepS := RepSx c
   RepM := RepMx c
-  dft_budget _ _ := True
+  dft_budget _ _ _ := True
   svp_prepare_budget _ := True
-  svp_budget _ _ _ := True
+  svp_budget _ _ _ _ := True
   vmp_prepare_budget _ _ _ := True
-  vmp_budget _ _ _ _ _ := True
+  vmp_budget _ _ _ _ _ _ := True
+  vmp_dd_budget _ _ _ _ _ _ _ := True
   idft_budget _ _ := True
   small_product_budget _ _ := True
   dft_exact := fun x asz asl rsz f _ hag _ => dft_sound c z ha hd hl x asz asl rsz f hag
@@ -164,6 +209,8 @@ def dftOpsSound_of_exact : DftOpsSound c c.nn where
   vmp_prepare_exact := fun x nrows ncols f hag _ => vmp_prepare_sound c x nrows ncols f hag
   vmp_exact := fun x asz asl rsz f M pm nrows ncols _ hag hM _ =>
     vmp_sound c z ha hd hl x asz asl rsz f M pm nrows ncols hag hM
+  vmp_dd_exact := fun P asz rsz d M pm nrows ncols _ hP _ hM _ =>
+    vmp_dd_sound c z ha hd hl P asz rsz d M pm nrows ncols hP hM
   dft_idft_exact := fun P sz rsz d h _ i t hi ht => idft_sound c z hd P sz rsz d h i t hi ht
   small_product_exact := fun a b fa fb h1 h2 _ t ht => small_product_sound c z ha hd hl a b fa fb h1 h2 t ht
 
